@@ -45,6 +45,17 @@ import dns.message  # noqa: E402,F401
 import dns.rdtypes.dnskeybase  # noqa: E402
 import dns.update  # noqa: E402,F401
 
+# E13: the text of a keyword-style DNSException (LifetimeTimeout(timeout=..., errors=...), NXDOMAIN(qnames=...), ...) is
+# rendered at construction time by str.format, which is C code: a symbolic duration would be realized, one concrete
+# value per path.  No property is about message texts; under the tracer the un-interpolated format string stands in.
+if not PLAIN:
+    def _plain_str(self):
+        if self.kwargs and self.fmt:
+            return self.fmt
+        return Exception.__str__(self)
+
+    dns.exception.DNSException.__str__ = _plain_str
+
 # E8: no OS entropy under the tracer; harnesses always pass explicit ids anyway.
 dns.entropy.random_16 = lambda: 0x1234
 dns.entropy.between = lambda first, last: first
